@@ -1,16 +1,20 @@
 // C17 — the AST walker reaches every node of every parsed program.
 // Oracle: a generic reflection walk over the parsed tree (internal/dump.Nodes) gives the
 // node set N; astutil.Walk must present every n in N, each after its reflective parent,
-// return nil, and abort at once with the callback's own error.
+// return nil, and abort at once with the callback's own error. "Returned an error" is Go's own
+// test (result != nil); the result is only rendered for the report, behind a recover, and a walk
+// that panics instead of returning is a finding of its own (walk-panicked), never a harness fault.
 package c17
 
 import (
 	"errors"
 	"fmt"
+	"reflect"
 	"sort"
 	"strings"
 	"testing"
 
+	"github.com/mattn/anko/ast"
 	"github.com/mattn/anko/ast/astutil"
 	"github.com/mattn/anko/parser"
 	"pgregory.net/rapid"
@@ -155,6 +159,46 @@ var rare = map[string]bool{"DeleteStmt": true, "CloseStmt": true, "ChanStmt": tr
 	"LenExpr": true, "SwitchCaseStmt": true, "SliceExpr": true, "TernaryOpExpr": true, "DerefExpr": true, "AddrExpr": true, "IncludeExpr": true,
 	"ChanExpr": true, "MakeExpr": true, "ImportExpr": true, "ModuleStmt": true, "TryStmt": true, "GoroutineStmt": true, "DeferStmt": true, "LetMapItemStmt": true}
 
+// guardedWalk runs astutil.Walk and turns a Go panic escaping from it into a value: the walk of a
+// parser-made tree with a callback that never panics has to come back ("presents every node ... and
+// returns no error"), a walk that panics has done neither.
+func guardedWalk(stmt ast.Stmt, f astutil.WalkFunc) (err error, panicked bool, pval string) {
+	defer func() {
+		if r := recover(); r != nil {
+			panicked, pval = true, panicText(r)
+		}
+	}()
+	return astutil.Walk(stmt, f), false, ""
+}
+
+func panicText(r interface{}) (s string) {
+	defer func() {
+		if recover() != nil {
+			s = fmt.Sprintf("panic value of type %T (not printable)", r)
+		}
+	}()
+	if e, ok := r.(error); ok {
+		return e.Error()
+	}
+	return fmt.Sprint(r)
+}
+
+// errText renders an error that the code under test handed out. The verdict "Walk returned an error"
+// is Go's own (`err != nil`) and never depends on this text; but the value may be anything that is
+// != nil, also a nil pointer in the interface whose Error method cannot run. ok=false: Error() panicked.
+func errText(err error) (msg string, ok bool, dyn string) {
+	dyn = fmt.Sprintf("%T", err)
+	if rv := reflect.ValueOf(err); rv.Kind() == reflect.Ptr && rv.IsNil() {
+		dyn += "(nil)"
+	}
+	defer func() {
+		if r := recover(); r != nil {
+			msg, ok = "Error() panicked: "+panicText(r), false
+		}
+	}()
+	return err.Error(), true, dyn
+}
+
 func oracle(c Case, o *h.Obs) *h.Fail {
 	o.Key = c.Src
 	stmt, err := parser.ParseSrc(c.Src)
@@ -180,17 +224,25 @@ func oracle(c Case, o *h.Obs) *h.Fail {
 
 	order := map[interface{}]int{}
 	var visited []interface{}
-	werr := astutil.Walk(stmt, func(x interface{}) error {
+	werr, wpanic, wpval := guardedWalk(stmt, func(x interface{}) error {
 		if _, ok := order[x]; !ok {
 			order[x] = len(visited)
 		}
 		visited = append(visited, x)
 		return nil
 	})
-	if werr != nil {
-		msg := werr.Error()
-		return h.Failf("C17|walk-error|"+strings.Join(strings.Fields(msg), " "), "source:\n%s\nWalk returned: %v", c.Src, werr)
+	if wpanic {
+		return h.Failf("C17|walk-panicked|"+strings.Join(strings.Fields(wpval), " "), "source:\n%s\nWalk did not return: it panicked after %d callbacks (callback never fails, never panics): %s", c.Src, len(visited), wpval)
 	}
+	if werr != nil {
+		// the callback returned nil every time, so any result that is != nil is an error Walk made up
+		msg, printable, dyn := errText(werr)
+		if !printable {
+			return h.Failf("C17|walk-error-unprintable|"+dyn, "source:\n%s\nWalk returned a result != nil after %d callbacks although the callback never returned an error; dynamic type %s, %s", c.Src, len(visited), dyn, msg)
+		}
+		return h.Failf("C17|walk-error|"+strings.Join(strings.Fields(msg), " "), "source:\n%s\nWalk returned: %s", c.Src, msg)
+	}
+	o.Class("walk_returned_nil")
 	var missing []string
 	for _, n := range nodes {
 		pos, ok := order[n.Ptr]
@@ -221,15 +273,23 @@ func oracle(c Case, o *h.Obs) *h.Fail {
 		stopAt := c.Abort % len(visited)
 		sentinel := errors.New("stop here")
 		calls := 0
-		aerr := astutil.Walk(stmt, func(x interface{}) error {
+		aerr, apanic, apval := guardedWalk(stmt, func(x interface{}) error {
 			calls++
 			if calls-1 == stopAt {
 				return sentinel
 			}
 			return nil
 		})
+		if apanic {
+			return h.Failf("C17|abort-walk-panicked|"+strings.Join(strings.Fields(apval), " "), "source:\n%s\ncallback returned its error at call %d; Walk panicked after %d callbacks: %s", c.Src, stopAt, calls, apval)
+		}
 		if aerr != sentinel {
-			return h.Failf("C17|abort-error-not-returned", "source:\n%s\ncallback returned its error at call %d, Walk returned %v", c.Src, stopAt, aerr)
+			got := "nil"
+			if aerr != nil {
+				m, _, dyn := errText(aerr)
+				got = dyn + ": " + m
+			}
+			return h.Failf("C17|abort-error-not-returned", "source:\n%s\ncallback returned its error at call %d, Walk returned %s", c.Src, stopAt, got)
 		}
 		if calls != stopAt+1 {
 			return h.Failf("C17|walk-continued-after-abort", "source:\n%s\ncallback returned its error at call %d but was called %d times", c.Src, stopAt, calls)
